@@ -28,6 +28,8 @@ def _call(w, fn, *a, **kw):
         return ("ok", R.guarded(fn, *a, **kw))
     except R.CallTimeout:
         # re-confirm alone with a larger budget before calling it a hang
+        w.stats["slow_call_reconfirmed"] += 1
+        w.slow.append((w.step_no, getattr(fn, "__name__", repr(fn))))
         try:
             return ("ok", R.guarded(fn, *a, budget=R.CONFIRM_BUDGET, **kw))
         except R.CallTimeout:
